@@ -477,8 +477,23 @@ impl Evaluate for Instance {
         let mut samples = samples.clone();
         for state in samples.states_mut() {
             let state = state?;
+            // As in `evaluate`, dependencies may refer to variables fixed by `partial_evaluate`.
+            // Their values are made available while resolving dependencies only, since the
+            // sampled values of fixed variables are given by `substituted_value`.
+            let mut fixed = Vec::new();
+            for v in &self.decision_variables {
+                if let Some(value) = v.substituted_value {
+                    if let HashMapEntry::Vacant(e) = state.entries.entry(v.id) {
+                        e.insert(value);
+                        fixed.push(v.id);
+                    }
+                }
+            }
             let mut new = eval_dependencies(&self.decision_variable_dependency, state)?;
             used_ids.append(&mut new);
+            for id in fixed {
+                state.entries.remove(&id);
+            }
             // As in `evaluate`, a variable without a value takes the value nearest to zero within its bound
             for v in &self.decision_variables {
                 if v.substituted_value.is_some() {
